@@ -311,6 +311,12 @@ static void run_type(uint64_t seed)
                 wd[i] = C((T)std::ldexp((double)d.real(), -emax / 2), (T)std::ldexp((double)d.imag(), -emax / 2));
                 if (rng.next() % 16 == 0)
                     wa[i] = C((rng.next() & 1) ? (T)0.0 : (T)-0.0, (rng.next() & 1) ? (T)0.0 : (T)-0.0);
+                if (rng.next() % 8 == 0)
+                { // moduli in the subnormal range of the element type ("finite operands": denormal components are finite)
+                    C d = Gen<T>::get(rng, 1, wca[i]);
+                    int sh = std::numeric_limits<T>::min_exponent - 2 - (int)(rng.next() % (std::numeric_limits<T>::digits - 3));
+                    wa[i] = C((T)std::ldexp((double)d.real(), sh), (T)std::ldexp((double)d.imag(), sh));
+                }
             }
             C sa[N];
             int sca[N], scb[N];
@@ -329,6 +335,8 @@ static void run_type(uint64_t seed)
                 // named class of the open finding about extreme moduli (first match wins)
                 ld m = std::abs(x);
                 const int half = std::numeric_limits<T>::max_exponent / 2;
+                if (m != 0 && m < ldexpl(1.0L, std::numeric_limits<T>::min_exponent + 1))
+                    return "modulus_in_subnormal_range";
                 return (m != 0 && (m >= ldexpl(1.0L, half - 14) || m < ldexpl(1.0L, -(half - 14)))) ? "modulus_outside_middle_of_exponent_range" : (m == 0 ? "zero_operand" : "unclassified");
             };
             cmpr("abs", xs::abs(wv), [](CL x) { return std::abs(x); }, 32, false);
@@ -352,6 +360,37 @@ static void run_type(uint64_t seed)
             };
             cmpc("div", va / dv, [](CL x, CL y, CL, ld) { return y == CL(0) ? CL(NAN, NAN) : x / y; }, 8, 0, small_div);
             cmpc("real_batch_div", vr / dv, [](CL, CL y, CL, ld r) { return y == CL(0) ? CL(NAN, NAN) : CL(r) / y; }, 8, 0, small_div);
+            // small dividend AND small divisor: the quotient is an ordinary number although the products c*a, d*b of the textbook
+            // formula underflow (the property excludes intermediate overflow, not underflow).  Dividend modulus in [2^-emax, 1].
+            {
+                C sd[N];
+                for (size_t i = 0; i < N; ++i)
+                {
+                    int dummy;
+                    C d = Gen<T>::get(rng, emax / 2, dummy);
+                    sd[i] = C((T)std::ldexp((double)d.real(), -emax / 2), (T)std::ldexp((double)d.imag(), -emax / 2));
+                }
+                if (it == 2)
+                { // fixed probe of the open finding, so that it is observed whatever the seed: (2^-120 + 0i) / (2^-33 + 0i) for float, scaled for double
+                    const int q = std::numeric_limits<T>::max_exponent / 16; // 8 / 64
+                    sd[0] = C((T)std::ldexp(1.0, -15 * q), (T)0);
+                    b[0] = C((T)std::ldexp(1.0, -4 * q - 1), (T)0);
+                    sd[N - 1] = C((T)std::ldexp(1.5, -14 * q), (T)std::ldexp(1.25, -14 * q));
+                    b[N - 1] = C((T)std::ldexp(1.0, -5 * q), (T)std::ldexp(-3.0, -5 * q));
+                }
+                memcpy(a, sd, sizeof a);
+                mark_case("complex_small_dividend_small_divisor", tname<T>(), a, sizeof a);
+                B sv = B::load_unaligned(a), dv2 = B::load_unaligned(b);
+                auto small_both = [](CL x, CL y) -> const char*
+                {
+                    return std::abs(x) * std::abs(y) < ldexpl(1.0L, std::numeric_limits<T>::min_exponent + 8) ? "dividend_times_divisor_underflows" : "unclassified";
+                };
+                cmpc("div", sv / dv2, [](CL x, CL y, CL, ld) { return y == CL(0) ? CL(NAN, NAN) : x / y; }, 8, 0, small_both);
+                B sq = sv;
+                sq /= dv2;
+                cmpc("div_assign", sq, [](CL x, CL y, CL, ld) { return y == CL(0) ? CL(NAN, NAN) : x / y; }, 8, 0, small_both);
+                memcpy(a, sa, sizeof a);
+            }
             memcpy(b, sb, sizeof b);
             memcpy(cb, scb, sizeof cb);
         }
